@@ -517,7 +517,13 @@ PROPS = {
           "29 message kinds (bank, lockup, gamm balancer+stableswap, poolmanager swaps/split routes, CL pools/positions, tokenfactory, incentives gauges, "
           "staking/distribution, txfees fee tokens, protorev base denoms), ~8% low-gas txs (out of gas in ante / in the message), bogus and unauthorised "
           "messages; block gaps 1ns..3 days so hour/day/week epochs tick (mint with reduction period 2, incentives distribution, twap pruning, protorev); "
-          "export after a random block. non-trivial = block with >=1 tx / non-empty document; distinct = distinct op lines",
+          "export after a random block. non-trivial = block with >=1 tx / non-empty document; distinct = distinct op lines. "
+          "Module engines: the histories of the owning property with the op exportimport at random points (auth: tokenfactory phase only, two in three histories with "
+          "the no100 contract as before-send hook and a directed set-hook -> export sequence; router: directed setfee x / setdefault x / export / setdefault y / fee, "
+          "share agreements and skim accumulators before exports; pm: CreatePool over balancer/stableswap/concentrated/alloyed-transmuter pools, SetParams incl. rejected "
+          "ones and defaults moved onto a stored override, MsgSetDenomPairTakerFee from admins and others, trackers incl. zero entries, volume, agreements, alloyed "
+          "registrations, skim accruals, with a dump of the whole store after every op; gamm/gammg: every C02 message with the total-liquidity store, gamm params and "
+          "migration records compared after each; mint: GenesisEpochProvisions = initial provisions or unrelated; epochs: import under the current block time/height)",
   "trusted_base": ["cosmos-sdk baseapp/IAVL/cachekv (cachekv flushes in sorted key order: the committed hash depends on the set of writes of a block, not their order)",
                    "T1 map-range classifier tools/extract/gen_det.go: syntactic type resolution (cross-checked once against go/types: 37 of 582 range statements are over maps, "
                    "identical sets) and syntactic body classes sorted/commutative/readonly; everything else must be in the hand-audited table of Props/C19",
@@ -550,7 +556,8 @@ PROPS = {
                   "app hashes are not compared across an import (IAVL versions differ); the imported node whose raw KV stores were synchronised with the exporter must reproduce "
                   "every tx result, gas, event, module export, query and raw store (staking HistoricalInfo, which embeds the app hash, excepted)."],
   "explanation": "65 theorems (mechanisms, distributionInfo/TakerFeeSkim instances, export/import of mint/epochs/sum-tree/accumulator/lockup/incentives/twap/superfluid/"
-                 "CL pool incl. negative witnesses, the T1 obligations) + the module engines lockup/incentives/twap/superfluid/cl running the op exportimport (REAL "
+                 "CL pool incl. negative witnesses, the T1 obligations; extension round: tokenfactory, poolmanager, gamm, mint/epochs on reachable states, layered CL) "
+                 "+ the module engines lockup/incentives/twap/superfluid/cl and auth (tokenfactory)/router/gamm/mint/epochs plus the whole-store engines pm and gammg running the op exportimport (REAL "
                  "ExportGenesis -> module store wiped -> REAL InitGenesis, history continues, every later state line compared with the Lean model) + engine det: per block app hash, "
                  "tx code/codespace/data/log/gas and ordered events of two in-process executions and a second process; export -> import -> per-module genesis, keeper queries, "
                  "invariants, remaining history; probes for the audited order-dependent sites.",
